@@ -1,37 +1,27 @@
-"""Per-component comparators for the model-vs-implementation diff. Default: canonical JSON equality.
-A comparator returns None (agree), "noise" (timing noise, counted, ignored) or a string (why they differ)."""
+"""Model-vs-implementation comparison. Default: canonical JSON equality.
+A component may ship its own comparator in checklib/cmp_<component>.py with
+    def compare(op, impl, model, rep) -> None | "noise" | "<why they differ>"
+(<component> = the part of op["c"] before the first dot)."""
+import importlib
+
+_cache = {}
 
 
-def _retry_execute(op, impl, model, rep):
-    if "model_error" in model:
-        return "model error: " + model["model_error"]
-    if impl["attempts"] != model["attempts"]:
-        return "attempts differ"
-    if impl["result"] != model["result"]:
-        return "result differs"
-    waits = model["waits"]
-    gaps = impl["waits"]
-    # every completed wait of the model must show up as a gap between two attempts
-    if len(gaps) != len(waits) and not (model["result"] == "ctxErr" and len(gaps) == len(waits)):
-        if len(gaps) != len(waits):
-            return "number of waits differs (model %d, implementation gaps %d)" % (len(waits), len(gaps))
-    jitter = (rep.get("extra") or {}).get("jitter_ns", 0)
-    slack = max(150_000_000, 4 * jitter)
-    for k, (w, g) in enumerate(zip(waits, gaps)):
-        if g < w:
-            return "wait %d shorter than the model's: %d < %d ns" % (k + 1, g, w)
-        if g > w + slack:
-            if g > w + 20 * slack:
-                return "wait %d much longer than the model's: %d vs %d ns" % (k + 1, g, w)
-            return "noise"
-    return None
+def _custom(comp):
+    if comp not in _cache:
+        try:
+            _cache[comp] = importlib.import_module("cmp_" + comp).compare
+        except ModuleNotFoundError:
+            _cache[comp] = None
+    return _cache[comp]
 
 
 def compare(op, impl, model, rep):
-    c = op.get("c", "")
-    if c == "retry.execute":
-        return _retry_execute(op, impl, model, rep)
-    if "model_error" in model:
+    comp = op.get("c", "").split(".")[0]
+    f = _custom(comp)
+    if f is not None:
+        return f(op, impl, model, rep)
+    if isinstance(model, dict) and "model_error" in model:
         return "model error: " + str(model["model_error"])
     if impl != model:
         return "outcomes differ"
